@@ -649,27 +649,61 @@ theorem c05_host_memo_witness :
 
 /-! ## G. Hosts-file aliases of loopback addresses are localhost -/
 
-/-- every alias is a localhost name, in any letter case of the request's host (aliases as the hosts
-    file spells them in lower case) -/
-theorem c05_alias_is_localhost {aliases : List Bytes} {host : Bytes} (h : lower host ∈ aliases) :
+/-- every alias is a localhost name, in any letter case of the alias in the hosts file and of the
+    request's host (`NewHTTPProxy` lower-cases the aliases, `isLocalhost` the host); and `localhost`
+    stays one whatever the hosts file holds -/
+theorem c05_alias_is_localhost {aliases : List Bytes} {host : Bytes} (h : ∃ a ∈ aliases, lower a = lower host) :
     C05.isLocalhost aliases host = true ∧ C05.isLocalhost aliases (bs "localhost") = true := by
   constructor
   · unfold C05.isLocalhost isLocalhostNames hpLocalhost
-    have : (builtinLocalhost ++ aliases).contains (lower host) = true := by
-      simp only [List.contains_eq_mem, List.mem_append, decide_eq_true_eq]
+    have : (builtinLocalhost ++ aliases.map lower).contains (lower host) = true := by
+      simp only [List.contains_eq_mem, List.mem_append, List.mem_map, decide_eq_true_eq]
       exact Or.inr h
     simp only [this, Bool.true_or]
   · unfold C05.isLocalhost isLocalhostNames hpLocalhost
     have h0 : lower (bs "localhost") = bs "localhost" := by with_unfolding_all decide
-    have : (builtinLocalhost ++ aliases).contains (lower (bs "localhost")) = true := by
+    have : (builtinLocalhost ++ aliases.map lower).contains (lower (bs "localhost")) = true := by
       rw [h0]
       simp only [List.contains_eq_mem, List.mem_append, decide_eq_true_eq]
       exact Or.inl (by unfold builtinLocalhost; exact List.mem_cons_self)
     simp only [this, Bool.true_or]
 
+/-- the localhost names are a set: the order of the aliases and repetitions among them play no role
+    in any routing decision -/
+theorem c05_alias_order_irrelevant (rc : RouteCfg) (as₁ as₂ : List Bytes) (h : ∀ x, x ∈ as₁ ↔ x ∈ as₂) (host : Bytes) :
+    selectProxy { rc with localhostNames := hpLocalhost as₁ } host =
+      selectProxy { rc with localhostNames := hpLocalhost as₂ } host := by
+  have hc : ∀ x, (hpLocalhost as₁).contains x = (hpLocalhost as₂).contains x := by
+    intro x
+    apply Bool.eq_iff_iff.mpr
+    unfold hpLocalhost
+    simp only [List.contains_eq_mem, List.mem_append, List.mem_map, decide_eq_true_eq]
+    constructor
+    · rintro (h1 | ⟨a, ha, he⟩)
+      · exact Or.inl h1
+      · exact Or.inr ⟨a, (h a).mp ha, he⟩
+    · rintro (h1 | ⟨a, ha, he⟩)
+      · exact Or.inl h1
+      · exact Or.inr ⟨a, (h a).mpr ha, he⟩
+  have hsel : ∀ names : List Bytes, selectProxy { rc with localhostNames := names } host =
+      match wrapDirectDomains rc (baseFn rc.base) with
+      | none => .ok none
+      | some f => if rc.localhostDirect then (if isLocalhostNames names host then .ok none else f host) else f host := by
+    intro names
+    unfold selectProxy proxyFunc wrapDirectLocalhost
+    have hw : wrapDirectDomains { rc with localhostNames := names } (baseFn rc.base) = wrapDirectDomains rc (baseFn rc.base) := rfl
+    simp only [hw]
+    cases wrapDirectDomains rc (baseFn rc.base) with
+    | none => rfl
+    | some f => cases hl : rc.localhostDirect <;> simp
+  have hn : isLocalhostNames (hpLocalhost as₁) host = isLocalhostNames (hpLocalhost as₂) host := by
+    unfold isLocalhostNames
+    simp only [hc]
+  rw [hsel, hsel, hn]
+
 /-- mode `direct`: an alias is contacted directly, like `localhost`, whatever the upstream or PAC script -/
 theorem c05_alias_direct_mode {rc : RouteCfg} {aliases : List Bytes} (hn : rc.localhostNames = hpLocalhost aliases)
-    (hl : rc.localhostDirect = true) {host : Bytes} (h : lower host ∈ aliases) :
+    (hl : rc.localhostDirect = true) {host : Bytes} (h : ∃ a ∈ aliases, lower a = lower host) :
     selectProxy rc host = .ok none ∧ selectProxy rc host = selectProxy rc (bs "localhost") := by
   have ha := c05_alias_is_localhost (host := host) h
   unfold C05.isLocalhost at ha
@@ -688,7 +722,7 @@ theorem c05_alias_other_modes (rc : RouteCfg) (hl : rc.localhostDirect = false) 
 /-- mode `deny`: a request for an alias is refused like one for `localhost` (403, nothing dialled) -/
 theorem c05_alias_deny_mode {cfg : Cfg} {aliases : List Bytes} (hn : cfg.localhostNames = hpLocalhost aliases)
     (hd : cfg.denyLocalhost = true) (ht : cfg.timeAllowed = true) (hb : cfg.basicAuth = none)
-    (g : GoReq) (h : lower (hostname g.urlHost) ∈ aliases) : securityCheck cfg g = some .localhost := by
+    (g : GoReq) (h : ∃ a ∈ aliases, lower a = lower (hostname g.urlHost)) : securityCheck cfg g = some .localhost := by
   have ha := (c05_alias_is_localhost (host := hostname g.urlHost) h).1
   unfold C05.isLocalhost at ha
   unfold securityCheck
@@ -696,7 +730,131 @@ theorem c05_alias_deny_mode {cfg : Cfg} {aliases : List Bytes} (hn : cfg.localho
   simp
 
 example : C05.isLocalhost [bs "runsc", bs "vm"] (bs "VM") = true ∧ C05.isLocalhost [bs "runsc", bs "vm"] (bs "vmx") = false ∧
-    C05.isLocalhost [] (bs "vm") = false ∧ C05.isLocalhost [] (bs "127.0.0.9") = true := by
+    C05.isLocalhost [] (bs "vm") = false ∧ C05.isLocalhost [] (bs "127.0.0.9") = true ∧
+    C05.isLocalhost [bs "SL-666", bs "kubernetes.docker.internal"] (bs "sl-666") = true ∧
+    C05.isLocalhost [bs "SL-666", bs "kubernetes.docker.internal"] (bs "LocalHost") = true := by
+  with_unfolding_all decide
+
+/-! ## H. The process environment plays no role
+
+`routeIn env c q` is `route c q` with the environment of the process (`HTTP_PROXY`, `HTTPS_PROXY`,
+`NO_PROXY`, …) as an explicit input: the transport `NewHTTPTransport` builds has no proxy function of
+its own, so what `martian.Proxy.init` keeps when the configuration selects no upstream is nil. -/
+
+/-- routing is decided by the configuration: two processes with different environments route every
+    request of every configuration alike, namely as `route` says -/
+theorem c05_env_irrelevant (env env' : Ambient) (c : InstCfg) (q : RouteReq) :
+    routeIn env c q = routeIn env' c q ∧ routeIn env c q = route c q := by
+  have key : ∀ e : Ambient, routeIn e c q = route c q := by
+    intro e
+    unfold routeIn routeWith route effectiveProxy transportProxyField dispatch routeConnect routeRequest selectProxy
+    cases hq : q.connect <;> cases hp : proxyFunc (c.at q) with
+    | none => simp
+    | some f => cases hf : f (hostname q.urlHost) with
+      | error e => simp
+      | ok o => cases o <;> simp
+  exact ⟨by rw [key env, key env'], key env⟩
+
+/-- with no upstream, no PAC and no custom function everything goes direct, in every environment and
+    whatever `--direct-domains` / `--proxy-localhost` say -/
+theorem c05_env_no_upstream_direct (env : Ambient) (c : InstCfg) (q : RouteReq) (hs : c.script = none)
+    (hb : c.rc.base = .none) :
+    routeIn env c q = .ok (.direct (if q.connect then q.urlHost else canonicalAddr q.scheme q.urlHost)) := by
+  rw [(c05_env_irrelevant env env c q).2]
+  unfold route InstCfg.at
+  simp only [hs]
+  cases hq : q.connect
+  · unfold routeRequest; rw [c05_no_upstream_direct hb]; simp
+  · unfold routeConnect; rw [c05_no_upstream_direct hb]; simp
+
+/-- why a transport that inherits `ProxyFromEnvironment` goes unnoticed with an upstream configured:
+    once the configuration has a proxy function, even that transport never consults the environment -/
+theorem c05_env_inherited_shadowed (env : Ambient) (c : InstCfg) (q : RouteReq)
+    (h : (proxyFunc (c.at q)).isSome = true) : routeWith inheritedProxyField env c q = route c q := by
+  unfold routeWith route effectiveProxy dispatch routeConnect routeRequest selectProxy
+  cases hp : proxyFunc (c.at q) with
+  | none => rw [hp] at h; cases h
+  | some f =>
+    cases hq : q.connect <;> cases hf : f (hostname q.urlHost) with
+    | error e => simp
+    | ok o => cases o <;> simp
+
+/-- … and without one it does: the counter-model sends a plain request for `shop.test` to the proxy
+    `HTTP_PROXY` names, a request read inside an intercepted tunnel to the one `HTTPS_PROXY` names,
+    and spares loopback targets (which is all a test on 127.0.0.1 ever sees); the proxy as it is
+    contacts `shop.test` itself -/
+theorem c05_env_inherited_witness :
+    let env : Ambient := { httpProxy := some { scheme := bs "http", host := bs "sink.corp:3128" },
+                           httpsProxy := some { scheme := bs "http", host := bs "sink.corp:3129" } }
+    let c : InstCfg := { rc := { directDomains := some [], localhostDirect := true } }
+    let plain : RouteReq := { scheme := bs "http", urlHost := bs "shop.test", path := bs "/" }
+    let inner : RouteReq := { scheme := bs "https", urlHost := bs "shop.test", path := bs "/" }
+    let loop : RouteReq := { scheme := bs "http", urlHost := bs "127.0.0.1:8080", path := bs "/" }
+    routeWith inheritedProxyField env c plain = .ok (.viaProxy .http (bs "sink.corp:3128")) ∧
+    routeWith inheritedProxyField env c inner = .ok (.viaProxy .http (bs "sink.corp:3129")) ∧
+    routeWith inheritedProxyField env c loop = .ok (.direct (bs "127.0.0.1:8080")) ∧
+    routeIn env c plain = .ok (.direct (bs "shop.test:80")) ∧
+    routeIn env c inner = .ok (.direct (bs "shop.test:443")) := by
+  with_unfolding_all decide
+
+/-! ## I. Every dial attempt goes to the connect-to image of the address
+
+`dialAttempts cfg addr outcomes` are the attempts `Dialer.DialContext(addr)` makes when the network
+answers `outcomes` to them in turn. -/
+
+/-- whatever the outcomes, the first attempt and every retry dial `redirect(addr)` — the address the
+    first matching `--connect-to` rule maps `addr` to — and never `addr` itself (unless no rule matches) -/
+theorem c05_every_attempt_dials_redirect (cfg : DialCfg) (addr : Bytes) (outcomes : List Bool) :
+    ∀ a ∈ dialAttempts cfg addr outcomes, a.addr = redirect cfg.connectTo addr := by
+  unfold dialAttempts
+  exact attemptLoop_const_addr _ _ _ _
+
+/-- with the first matching rule written out -/
+theorem c05_every_attempt_first_match {pre post : List HostPortPair} {s : HostPortPair} {addr host port : Bytes}
+    (hsp : netSplitHostPort addr = some (host, port)) (hpre : ∀ x ∈ pre, x.matches host port = false)
+    (hs : s.matches host port = true) (attempts : Nat) (outcomes : List Bool) :
+    ∀ a ∈ dialAttempts { connectTo := pre ++ s :: post, attempts := attempts } addr outcomes,
+      a.addr = netJoinHostPort (if s.dstHost.isEmpty then host else s.dstHost) (if s.dstPort.isEmpty then port else s.dstPort) := by
+  intro a ha
+  rw [c05_every_attempt_dials_redirect _ _ _ a ha]
+  exact c05_redirect_first_match hsp hpre hs
+
+/-- at least one attempt, at most `Retry.Attempts`; only the last one may have connected -/
+theorem c05_attempt_count (cfg : DialCfg) (addr : Bytes) (outcomes : List Bool) :
+    1 ≤ (dialAttempts cfg addr outcomes).length ∧ (dialAttempts cfg addr outcomes).length ≤ cfg.tries ∧
+    ∀ a ∈ (dialAttempts cfg addr outcomes).dropLast, a.ok = false := by
+  have ht : 1 ≤ cfg.tries := by unfold DialCfg.tries; split <;> simp_all <;> omega
+  unfold dialAttempts
+  exact ⟨attemptLoop_length_pos _ _ _ _ ht, attemptLoop_length_le _ _ _ _, attemptLoop_dropLast_failed _ _ _ _⟩
+
+/-- `k` failures followed by a success within the budget: `k + 1` attempts and the dial succeeds;
+    failures throughout: all `Retry.Attempts` attempts are made and the dial fails -/
+theorem c05_attempts_until_success (cfg : DialCfg) (addr : Bytes) (k : Nat) (rest : List Bool) :
+    (k < cfg.tries →
+      dialAttempts cfg addr (List.replicate k false ++ true :: rest) =
+        List.replicate k { addr := redirect cfg.connectTo addr, ok := false } ++ [{ addr := redirect cfg.connectTo addr, ok := true }]) ∧
+    (cfg.tries ≤ k →
+      dialAttempts cfg addr (List.replicate k false ++ rest) =
+        List.replicate cfg.tries { addr := redirect cfg.connectTo addr, ok := false }) := by
+  unfold dialAttempts
+  exact ⟨attemptLoop_success _ _ _ _ _, attemptLoop_all_fail _ _ _ _ _⟩
+
+/-- a dialer whose retries go to the requested address instead is a different dialer: with a rule
+    `shop.test:80 → 10.0.0.9:8080`, a first attempt that is refused and a second that connects, it
+    ends up connected to `shop.test:80` — the party the rule diverts traffic away from -/
+theorem c05_retry_unmapped_witness :
+    let cfg : DialCfg := { connectTo := [{ srcHost := bs "shop.test", srcPort := bs "80", dstHost := bs "10.0.0.9", dstPort := bs "8080" }], attempts := 3 }
+    dialAttempts cfg (bs "shop.test:80") [false, true] =
+      [{ addr := bs "10.0.0.9:8080", ok := false }, { addr := bs "10.0.0.9:8080", ok := true }] ∧
+    dialAttemptsUnmappedRetry cfg (bs "shop.test:80") [false, true] =
+      [{ addr := bs "10.0.0.9:8080", ok := false }, { addr := bs "shop.test:80", ok := true }] ∧
+    dialAttempts cfg (bs "shop.test:80") [true] = dialAttemptsUnmappedRetry cfg (bs "shop.test:80") [true] := by
+  with_unfolding_all decide
+
+example : dialOk (dialAttempts { attempts := 0 } (bs "a:1") [false, true]) = false ∧
+    (dialAttempts { attempts := 0 } (bs "a:1") [false, true]).length = 1 ∧
+    dialOk (dialAttempts { attempts := 3 } (bs "a:1") [false, false, true]) = true ∧
+    dialOk (dialAttempts { attempts := 3 } (bs "a:1") [false, false, false, true]) = false := by
   with_unfolding_all decide
 
 end C05
